@@ -349,3 +349,25 @@ func (t *Table) Items() map[string]map[string]AV {
 	}
 	return out
 }
+
+// SetRevoked flips KeyRecord.Revoked of the item (id, created) to true, the way the operator's revocation script
+// does (an out-of-band update of the item). Reports whether the item exists.
+func (t *Table) SetRevoked(id string, created int64) bool {
+	t.mu.Lock()
+	defer t.mu.Unlock()
+	it, ok := t.items[key{id, created}]
+	if !ok {
+		return false
+	}
+	kr, ok := it["KeyRecord"]
+	if !ok || kr.Kind != 'M' {
+		return false
+	}
+	c := kr.clone()
+	c.M["Revoked"] = AV{Kind: 'T', Bool: true}
+	n := cloneItem(it)
+	n["KeyRecord"] = c
+	t.items[key{id, created}] = n
+	t.hasLast = false
+	return true
+}
